@@ -1967,6 +1967,138 @@ def rule_setiter(toks, fired, names):
     return toks
 
 
+# ---- rules added for units dense_math / chordal_compact (additive) ----
+_ASSIGN_OPS = ("=", "+=", "-=", "*=", "/=")
+
+
+def rule_tupidx(toks, fired):
+    """tupidx:  X[(A, B)]  ->  (*X.index((A, B)))   resp.  (*X.index_mut((A, B)))  when the expression is the left-hand side of
+    `=` / `+=` / `-=` / `*=` / `/=`.  This is the definition of the indexing operator for a user type (`a[b]` is sugar for
+    `*Index::index(&a, b)`, in a mutable place context for `*IndexMut::index_mut(&mut a, b)`); Verus only models `[]` on Vec /
+    slices / arrays.  Only an index that is a *tuple literal* is rewritten (slices cannot be indexed by a tuple, so no builtin
+    indexing is touched).  The unit supplies `index` / `index_mut` (the real bodies of the dense matrix type)."""
+    i = 0
+    while i < len(toks):
+        t = toks[i]
+        if t.kind == "punct" and t.text == "[" and not t.syn:
+            c = match_close(toks, i)
+            a = next_code(toks, i + 1)
+            p = prev_code(toks, i - 1)
+            if (a < c and toks[a].kind == "punct" and toks[a].text == "(" and match_close(toks, a) == prev_code(toks, c - 1)
+                    and len(split_top_commas(toks, a + 1, match_close(toks, a))) == 2
+                    and p >= 0 and (toks[p].kind == "ident" or toks[p].text in (")", "]"))):
+                start = _postfix_start(toks, i)
+                recv = toks[start:i]
+                nx = next_code(toks, c + 1)
+                mut = nx < len(toks) and toks[nx].kind == "punct" and toks[nx].text in _ASSIGN_OPS
+                new = synth("(*") + recv + synth(".index_mut(" if mut else ".index(") + toks[a:match_close(toks, a) + 1] + synth("))")
+                toks = toks[:start] + new + toks[c + 1:]
+                fired["tupidx"] = fired.get("tupidx", 0) + 1
+                i = start + 1
+                continue
+        i += 1
+    return toks
+
+
+def rule_selfout(toks, fired):
+    """selfout:  `Self::Output`  ->  `F`   (the associated type of `Index<(usize, usize)> for DenseStorageMatrix<S, T>` is
+    `type Output = T`, written out so that the method can be checked as an inherent method of the stand-in instantiation)"""
+    out = []
+    i = 0
+    while i < len(toks):
+        t = toks[i]
+        if t.kind == "ident" and t.text == "Self" and not t.syn:
+            a = next_code(toks, i + 1)
+            b = next_code(toks, a + 1) if a < len(toks) else len(toks)
+            if a < len(toks) and toks[a].text == "::" and b < len(toks) and toks[b].kind == "ident" and toks[b].text == "Output":
+                out += synth("F")
+                fired["selfout"] = fired.get("selfout", 0) + 1
+                i = b + 1
+                continue
+        out.append(t)
+        i += 1
+    return out
+
+
+def rule_stepby(toks, fired):
+    """stepby:  for X in (A..B).step_by(K) {BODY}  ->  { let mut sb_itN = A; let sb_endN = B; while sb_itN < sb_endN { let X = sb_itN;
+    sb_itN += K; BODY } }   (the values A, A+K, A+2K, .. below B, bounds evaluated once, as `StepBy<Range<usize>>` yields them; the
+    synthesised `sb_itN += K` carries an overflow obligation that the iterator does not have - the unit has to discharge it)"""
+    i = 0
+    n = 0
+    while i < len(toks):
+        t = toks[i]
+        if t.kind == "ident" and t.text == "for" and not t.syn:
+            bo = _loop_body_open(toks, i)
+            bc = match_close(toks, bo)
+            x = next_code(toks, i + 1)
+            inn = next_code(toks, x + 1)
+            if toks[x].kind == "ident" and toks[inn].text == "in":
+                p = next_code(toks, inn + 1)
+                if toks[p].text == "(":
+                    pe = match_close(toks, p)
+                    d1 = next_code(toks, pe + 1)
+                    sb = next_code(toks, d1 + 1)
+                    kp = next_code(toks, sb + 1)
+                    if (toks[d1].text == "." and toks[sb].text == "step_by" and toks[kp].text == "("
+                            and next_code(toks, match_close(toks, kp) + 1) == bo):
+                        dd = []
+                        d = 0
+                        for q in range(p + 1, pe):
+                            xq = toks[q]
+                            if xq.kind == "punct" and xq.text in OPEN: d += 1
+                            elif xq.kind == "punct" and xq.text in CLOSE: d -= 1
+                            elif xq.kind == "punct" and xq.text == ".." and d == 0: dd.append(q)
+                        if len(dd) != 1:
+                            raise ExtractError("stepby: iterator is not (A..B).step_by(K)")
+                        A = _strip_ws(toks[p + 1:dd[0]])
+                        B = _strip_ws(toks[dd[0] + 1:pe])
+                        K = _strip_ws(toks[kp + 1:match_close(toks, kp)])
+                        n += 1
+                        it, en = f"sb_it{n}", f"sb_end{n}"
+                        X = toks[x].text
+                        new = (synth(f"let mut {it} = ") + A + synth(f"; let {en} = ") + B + synth(f"; while {it} < {en} ")
+                               + [toks[bo]] + synth(f" let {X} = {it}; {it} += ") + K + synth(";") + toks[bo + 1:bc + 1])
+                        toks = toks[:i] + [S("{")] + new + [S("}")] + toks[bc + 1:]
+                        fired["stepby"] = fired.get("stepby", 0) + 1
+                        i += 1
+                        continue
+        i += 1
+    return toks
+
+
+def rule_rangeeq(toks, fired):
+    """rangeeq:  E.eq(0..0)  ->  range_yields_nothing(E)    `Range<usize>` is an iterator and method resolution picks the by-value
+    `Iterator::eq(self, other)` before `PartialEq::eq(&self, &other)`, so `r.clone().eq(0..0)` compares the *sequences* the two ranges
+    yield: true exactly when r yields nothing (start >= end), not only for the literal 0..0.  The unit declares the helper with that
+    ASSUMED contract."""
+    i = 0
+    while i < len(toks):
+        t = toks[i]
+        if t.kind == "ident" and t.text == "eq" and not t.syn and toks[prev_code(toks, i - 1)].text == ".":
+            dot = prev_code(toks, i - 1)
+            p = next_code(toks, i + 1)
+            if toks[p].text == "(":
+                pe = match_close(toks, p)
+                arg = [x.text for x in toks[p + 1:pe] if x.kind not in ("ws", "comment")]
+                if arg == ["0", "..", "0"]:
+                    a = _postfix_start(toks, dot)
+                    recv = toks[a:dot]
+                    toks = toks[:a] + synth("range_yields_nothing(") + recv + synth(")") + toks[pe + 1:]
+                    fired["rangeeq"] = fired.get("rangeeq", 0) + 1
+                    i = a + 1
+                    continue
+        i += 1
+    return toks
+
+
+RULES["tupidx"] = rule_tupidx
+RULES["selfout"] = rule_selfout
+RULES["stepby"] = rule_stepby
+RULES["rangeeq"] = rule_rangeeq
+RULE_ORDER[RULE_ORDER.index("R20"):RULE_ORDER.index("R20")] = ["tupidx", "selfout", "stepby", "rangeeq"]
+
+
 def apply_rules(toks, rules, fired):
     for r in RULE_ORDER:
         if r in rules:
